@@ -650,8 +650,8 @@ class Learner1D(BaseLearner):
             super().tell_many(xs, ys)
             return
 
-        # Add data points
-        self.data.update(zip(xs, ys))
+        # Add data points; like `tell`, keep the value of an already known point
+        self.data.update((x, y) for x, y in zip(xs, ys) if x not in self.data)
         self.pending_points.difference_update(xs)
 
         # Get all data as numpy arrays
